@@ -21,6 +21,6 @@ Behaviour ==
   [init |-> TreePairs(init), final |-> TreePairs(tree), snap |-> TreePairs(snap0),
    cs |-> cs, olds |-> olds, dir |-> dir, stopAt |-> stopAt, faultAt |-> faultAt,
    cause |-> cause, result |-> result, hist |-> hist, hist0 |-> hist0, ops |-> ops,
-   done |-> done, needsRM |-> NeedsRemoveInverse]
+   done |-> done, needsRM |-> NeedsRemoveInverse, pre |-> pre]
 Export == Ended => PrintT(<<"BEH", ToJson(Behaviour)>>)
 =============================================================================
